@@ -108,6 +108,28 @@ PLANNED = {"Exception": Planned}
 for _base in (KeyError, AttributeError, TypeError, ValueError, LookupError, IndexError, RuntimeError, AssertionError,
               StopAsyncIteration, OSError, NotImplementedError):
     PLANNED[_base.__name__] = type("Planned" + _base.__name__, (_base, Planned), {})
+
+
+class PlannedFalsy(Planned):
+    """A failure whose instance is falsy (an "empty" error collection): only ``is None`` tells it from no exception."""
+
+    def __bool__(self) -> bool:
+        return False
+
+
+class PlannedFalsyNeedsArg(Planned):
+    """Falsy through ``__len__``, and not constructible without arguments."""
+
+    def __init__(self, reason: Any):
+        super().__init__(reason)
+        self.reason = reason
+
+    def __len__(self) -> int:
+        return 0
+
+
+PLANNED["Falsy"] = PlannedFalsy
+PLANNED["FalsyNeedsArg"] = PlannedFalsyNeedsArg
 PLANNED_NAMES = list(PLANNED)
 
 
